@@ -1,15 +1,22 @@
 (* Implementation model of
      kappadata/caching/shared_dict_dataset.py (SharedDictDataset._cached_getitem, dispose)
-     kappadata/caching/cached_dataset.py      (CachedDataset.__getitem__: transform after the cache)
-   with /verif/fixes/C19_clear_race.patch applied ([fixed] = true; false = the code before the patch).
+     kappadata/caching/cached_dataset.py      (CachedDataset.__getitem__: transform after the cache; __len__)
+   with /verif/fixes/C19_clear_race.patch applied ([fixed] = true; [fixed] = false is the
+   reader of the code BEFORE that patch and is kept only to document what the patch repaired).
    No proofs here.
 
-   The shared dict is an association list (latest binding first).  Every operation
-   on the Manager dict proxy (`in`, `[]`, `[]=`, `clear`) is one atomic step, and so
-   is one access of the wrapped dataset (a load).  A process runs a program of
-   commands; a schedule is an arbitrary list of process ids, each occurrence lets
-   that process perform its next atomic step (nothing happens if it has finished or
-   does not exist). *)
+   The shared dict is an association list (latest binding first).  Every operation on
+   the Manager dict proxy (`in`, `[]`, `[]=`, `clear`) is one atomic step, and so is one
+   access of the wrapped dataset (a load).  A process (a DataLoader worker / any holder
+   of a copy of the dataset object: all copies talk to the same Manager dict) runs a
+   program of commands; a schedule is an arbitrary list of process ids, each occurrence
+   lets that process perform its next atomic step (nothing happens if it has finished
+   or does not exist).
+
+   The wrapped dataset is [base : Z -> option Z]; [None] = the wrapped dataset raises
+   (IndexError), which leaves `cached[i]` unchanged and caches nothing.  The post-cache
+   transform may be stateful / random: its k-th call in process p is [tf (draws p k)]
+   with an arbitrary recorded draw. *)
 From Coq Require Import ZArith List Bool.
 Import ListNotations.
 Open Scope Z_scope.
@@ -20,7 +27,10 @@ Fixpoint dget (i : Z) (d : dict) : option Z :=
   match d with [] => None | (k, v) :: d' => if i =? k then Some v else dget i d' end.
 Definition dset (i v : Z) (d : dict) : dict := (i, v) :: d.
 
-Inductive cmd := CGet (i : Z) | CClear.      (* cached[i]  |  cached.dispose() *)
+Inductive cmd :=
+| CGet (i : Z)       (* cached[i] *)
+| CClear             (* cached.dispose()  (= shared_dict.clear()) *)
+| CLen.              (* len(cached) *)
 
 (* where a process stands inside `cached[i]` *)
 Inductive pcs :=
@@ -29,44 +39,64 @@ Inductive pcs :=
 | PSet (i v : Z)         (* about to run `self.shared_dict[idx] = sample` and return *)
 | PHit (i : Z).          (* `idx not in self.shared_dict` was False: about to run `self.shared_dict[idx]` *)
 
-Inductive res := RVal (v : Z) | RKeyError.
-Inductive ev := ELoad (p : nat) (i : Z) | EClear (p : nat) | ERet (p : nat) (i : Z) (r : res).
+Inductive res :=
+| RVal (v : Z)           (* the transformed sample *)
+| RKeyError              (* KeyError out of cached[i] *)
+| RBaseError.            (* the wrapped dataset's own exception out of cached[i] *)
 
-Record proc := { pc : pcs; todo : list cmd }.
+(* observable events, in global order.  [ERet p i k r]: process p's cached[i] returned r; k = number of
+   transform calls p made before this access *)
+Inductive ev :=
+| ELoad (p : nat) (i : Z)
+| EClear (p : nat)
+| ERet (p : nat) (i : Z) (k : nat) (r : res)
+| ELen (p : nat) (n : Z).
+
+Record proc := { pc : pcs; todo : list cmd; nacc : nat }.
+Record state := { sd : dict; procs : list proc; log : list ev }.
+
+Fixpoint set_nth {A} (n : nat) (a : A) (l : list A) : list A :=
+  match l, n with
+  | [], _ => []
+  | _ :: r, O => a :: r
+  | x :: r, S n' => x :: set_nth n' a r
+  end.
+
+Definition is_start (c : pcs) : bool := match c with PStart => true | _ => false end.
 
 Section Sem.
-  Variable fixed : bool.            (* the KeyError fallback of the repaired code *)
-  Variable base : Z -> Z.           (* the wrapped dataset *)
-  Variable tf : Z -> Z.             (* the post-cache transform *)
+  Variable fixed : bool.             (* true = the KeyError fallback of the repaired code *)
+  Variable base : Z -> option Z.     (* the wrapped dataset *)
+  Variable blen : Z.                 (* len(wrapped dataset) *)
+  Variable tf : Z -> Z -> Z.         (* the post-cache transform: draw -> sample -> sample *)
+  Variable draws : nat -> nat -> Z.  (* draw of the k-th transform call of process p *)
 
   (* one atomic step of process p *)
   Definition pstep (p : nat) (d : dict) (pr : proc) : dict * proc * list ev :=
+    let k := nacc pr in
     match pc pr, todo pr with
     | PStart, [] => (d, pr, [])
-    | PStart, CClear :: r => ([], {| pc := PStart; todo := r |}, [EClear p])       (* shared_dict.clear() *)
-    | PStart, CGet i :: _ =>                                                      (* idx not in shared_dict *)
+    | PStart, CClear :: r => ([], {| pc := PStart; todo := r; nacc := k |}, [EClear p])   (* shared_dict.clear() *)
+    | PStart, CLen :: r => (d, {| pc := PStart; todo := r; nacc := k |}, [ELen p blen])   (* len(self.dataset) *)
+    | PStart, CGet i :: _ =>                                                             (* idx not in self.shared_dict *)
         match dget i d with
-        | Some _ => (d, {| pc := PHit i; todo := todo pr |}, [])
-        | None => (d, {| pc := PMiss i; todo := todo pr |}, [])
+        | Some _ => (d, {| pc := PHit i; todo := todo pr; nacc := k |}, [])
+        | None => (d, {| pc := PMiss i; todo := todo pr; nacc := k |}, [])
         end
-    | PMiss i, _ => (d, {| pc := PSet i (base i); todo := todo pr |}, [ELoad p i]) (* sample = dataset[idx] *)
-    | PSet i v, r =>                                                              (* shared_dict[idx] = sample; return transform(sample) *)
-        (dset i v d, {| pc := PStart; todo := tl r |}, [ERet p i (RVal (tf v))])
-    | PHit i, r =>                                                                (* sample = shared_dict[idx] *)
+    | PMiss i, r =>                                                                      (* sample = self.dataset[idx] *)
+        match base i with
+        | Some v => (d, {| pc := PSet i v; todo := r; nacc := k |}, [ELoad p i])
+        | None => (d, {| pc := PStart; todo := tl r; nacc := k |}, [ELoad p i; ERet p i k RBaseError])
+        end
+    | PSet i v, r =>                                        (* self.shared_dict[idx] = sample; return transform(sample) *)
+        (dset i v d, {| pc := PStart; todo := tl r; nacc := S k |}, [ERet p i k (RVal (tf (draws p k) v))])
+    | PHit i, r =>                                                                       (* sample = self.shared_dict[idx] *)
         match dget i d with
-        | Some v => (d, {| pc := PStart; todo := tl r |}, [ERet p i (RVal (tf v))])
-        | None => if fixed then (d, {| pc := PMiss i; todo := r |}, [])            (* except KeyError: load *)
-                  else (d, {| pc := PStart; todo := tl r |}, [ERet p i RKeyError]) (* KeyError leaves cached[i] *)
+        | Some v => (d, {| pc := PStart; todo := tl r; nacc := S k |}, [ERet p i k (RVal (tf (draws p k) v))])
+        | None => if fixed
+                  then (d, {| pc := PMiss i; todo := r; nacc := k |}, [])                 (* except KeyError: load *)
+                  else (d, {| pc := PStart; todo := tl r; nacc := k |}, [ERet p i k RKeyError])  (* BEFORE the fix *)
         end
-    end.
-
-  Record state := { sd : dict; procs : list proc; log : list ev }.
-
-  Fixpoint set_nth {A} (n : nat) (a : A) (l : list A) : list A :=
-    match l, n with
-    | [], _ => []
-    | _ :: r, O => a :: r
-    | x :: r, S n' => x :: set_nth n' a r
     end.
 
   Definition step (s : state) (p : nat) : state :=
@@ -80,18 +110,31 @@ Section Sem.
   Definition run (sched : list nat) (s : state) : state := fold_left step sched s.
 
   Definition init (d0 : dict) (progs : list (list cmd)) : state :=
-    {| sd := d0; procs := map (fun pg => {| pc := PStart; todo := pg |}) progs; log := [] |}.
+    {| sd := d0; procs := map (fun pg => {| pc := PStart; todo := pg; nacc := O |}) progs; log := [] |}.
 
-  (* a sequential history: one process (id 0) runs each command to completion; an access
-     takes at most 4 atomic steps (contains, get, load, set), further steps do nothing *)
-  Definition exec_cmd (d : dict) (c : cmd) : dict * list ev :=
-    let s := run [0; 0; 0; 0]%nat {| sd := d; procs := [{| pc := PStart; todo := [c] |}]; log := [] |} in
-    (sd s, log s).
+  (* Sequential histories: a list of (process, command); each command is handed to its process
+     and that process alone is scheduled until the command has returned.  A command takes at
+     most 4 atomic steps (membership test, failed lookup, load, store). *)
+  Definition at_start (s : state) (p : nat) : bool :=
+    match nth_error (procs s) p with Some pr => is_start (pc pr) | None => true end.
 
-  Fixpoint seq_run (d : dict) (prog : list cmd) : dict * list ev :=
-    match prog with
-    | [] => (d, [])
-    | c :: r => let '(d1, e1) := exec_cmd d c in
-                let '(d2, e2) := seq_run d1 r in (d2, e1 ++ e2)
+  Fixpoint finish (fuel : nat) (s : state) (p : nat) : state :=
+    match fuel with
+    | O => s
+    | S f => if at_start s p then s else finish f (step s p) p
     end.
+
+  Definition push (s : state) (p : nat) (c : cmd) : state :=
+    match nth_error (procs s) p with
+    | None => s
+    | Some pr => {| sd := sd s;
+                    procs := set_nth p {| pc := pc pr; todo := todo pr ++ [c]; nacc := nacc pr |} (procs s);
+                    log := log s |}
+    end.
+
+  Definition do_cmd (s : state) (pc : nat * cmd) : state :=
+    finish 3 (step (push s (fst pc) (snd pc)) (fst pc)) (fst pc).
+
+  Definition seq_exec (n : nat) (hist : list (nat * cmd)) : state :=
+    fold_left do_cmd hist (init [] (repeat [] n)).
 End Sem.
